@@ -161,6 +161,7 @@ namespace vt
       long long case_id = 0;
       bool tracing = true;          // false: only results are wanted
       bool in_case = false;
+      long long next_sid = 0;       // serial numbers of instrumented state objects
       int fuel_cases = 0;           // cases of the current bundle that ran out of fuel
       std::vector< std::string > inputs;  // explicit inputs, used in addition to the enumerated strings
    };
@@ -232,6 +233,11 @@ namespace vt
    inline constexpr int lim_of = 0;  // limit attached in action family 4: kind * 1000 + N (1 limit_depth, 2 limit_bytes, 3 check_bytes)
    template< typename T >
    inline constexpr int lim_of< T, std::void_t< decltype( T::lim ) > > = T::lim;
+
+   template< typename T, typename = void >
+   inline constexpr int sw_of = 0;  // switch attached in action family 5 (C13), see sw_body below
+   template< typename T >
+   inline constexpr int sw_of< T, std::void_t< decltype( T::sw ) > > = T::sw;
 
    template< typename T, typename = void >
    inline constexpr int sel_of = 0;  // parse-tree selector mask
@@ -310,6 +316,7 @@ namespace vt
          w.kv( "ak", 0 );
          w.kv( "sel", 0 );
          w.kv( "lim", 0 );
+         w.kv( "sw", 0 );
          w.kv( "hasmsg", emsg_of< Rule >::has ? 1 : 0 );
          w.str( "emsg", emsg_of< Rule >::get() );
          w.s( "}\n" );
@@ -336,6 +343,7 @@ namespace vt
       w.kv( "ak", ak_of< Rule > );
       w.kv( "sel", sel_of< Rule > );
       w.kv( "lim", lim_of< Rule > );
+      w.kv( "sw", sw_of< Rule > );
       w.kv( "hasmsg", emsg_of< Rule >::has ? 1 : 0 );
       w.str( "emsg", emsg_of< Rule >::get() );
       w.s( "}\n" );
@@ -942,9 +950,119 @@ namespace vt
    VT_DEFINE_FAM( 2 )
    VT_DEFINE_FAM( 3 )
    // family 4 is the limits family (see below)
-   VT_DEFINE_FAM( 5 )
+   // family 5 is the switch family (see below)
    VT_DEFINE_FAM( 6 )
    VT_DEFINE_FAM( 7 )
+
+   // instrumented state class (C13): logs construction (with the outer state it was given), success and destruction
+   struct S1
+   {
+      long long vsid;
+      template< typename In, typename... St >
+      explicit S1( const In& in, St&&... st )
+         : vsid( ++g().next_sid )
+      {
+         Global& G = g();
+         if( G.tracing ) {
+            Writer& w = G.tr;
+            w.s( "{\"k\":\"sc\"" );
+            w.kv( "sid", vsid );
+            w.kv( "o", in.current() - G.base );
+            w.kv( "os", first_sid( st... ) );
+            w.s( "}\n" );
+         }
+      }
+      S1()
+         : vsid( ++g().next_sid )
+      {
+         Global& G = g();
+         if( G.tracing ) {
+            Writer& w = G.tr;
+            w.s( "{\"k\":\"sc\"" );
+            w.kv( "sid", vsid );
+            w.kv( "o", -1 );
+            w.kv( "os", -1 );
+            w.s( "}\n" );
+         }
+      }
+      S1( const S1& ) = delete;
+      S1( S1&& ) = delete;
+      void operator=( const S1& ) = delete;
+      template< typename In, typename... St >
+      void success( const In& in, St&&... st )
+      {
+         Global& G = g();
+         if( G.tracing ) {
+            Writer& w = G.tr;
+            w.s( "{\"k\":\"ss\"" );
+            w.kv( "sid", vsid );
+            put_cur( w, cur_of( in ) );
+            w.kv( "os", first_sid( st... ) );
+            w.s( "}\n" );
+         }
+      }
+      ~S1()
+      {
+         Global& G = g();
+         if( G.tracing ) {
+            Writer& w = G.tr;
+            w.s( "{\"k\":\"sd\"" );
+            w.kv( "sid", vsid );
+            w.s( "}\n" );
+         }
+      }
+   };
+
+   // family 5: state and action switching (C13).  A rule type carries  static constexpr int sw = k
+   //   1 change_state< S1 >   2 change_states< S1 >   3 change_action< fam1 >   4 change_action_and_state< fam1, S1 >
+   //   5 change_action_and_states< fam1, S1 >   6 change_control< tc_hid_uw >   7 enable_action   8 disable_action
+   // rules without sw have the action given by nibble 5 of ak
+   template< typename Rule >
+   struct tc_hid_uw;
+   template< typename Rule, int SW >
+   struct sw_body : act_body< Rule, akind< Rule, 5 > >
+   {};
+   template< typename Rule >
+   struct sw_body< Rule, 1 > : pegtl::change_state< S1 >
+   {};
+   template< typename Rule >
+   struct sw_body< Rule, 2 > : pegtl::change_states< S1 >
+   {
+      template< typename In, typename... St >
+      static void success( const In& in, S1& s, St&&... st )
+      {
+         s.success( in, st... );
+      }
+   };
+   template< typename Rule >
+   struct sw_body< Rule, 3 > : pegtl::change_action< fam1 >
+   {};
+   template< typename Rule >
+   struct sw_body< Rule, 4 > : pegtl::change_action_and_state< fam1, S1 >
+   {};
+   template< typename Rule >
+   struct sw_body< Rule, 5 > : pegtl::change_action_and_states< fam1, S1 >
+   {
+      template< typename In, typename... St >
+      static void success( const In& in, S1& s, St&&... st )
+      {
+         s.success( in, st... );
+      }
+   };
+   template< typename Rule >
+   struct sw_body< Rule, 6 > : pegtl::change_control< tc_hid_uw >
+   {};
+   template< typename Rule >
+   struct sw_body< Rule, 7 > : pegtl::enable_action
+   {};
+   template< typename Rule >
+   struct sw_body< Rule, 8 > : pegtl::disable_action
+   {};
+   template< typename Rule >
+   struct fam5 : sw_body< Rule, sw_of< Rule > >
+   {
+      static constexpr int vfam = 5;
+   };
 
    // family 4: limits (C18).  A rule type carries  static constexpr int lim = kind * 1000 + N
    template< typename Rule, int Kind, std::size_t N >
@@ -985,6 +1103,7 @@ namespace vt
       G.base_byte = c.ib;
       G.events = 0;
       G.depth = 0;
+      G.next_sid = 0;
       G.in_case = true;
       ++G.case_id;
       Writer& w = G.tr;
